@@ -1556,6 +1556,43 @@ class RecInterp(FxInterp):
         self.calls = []
         self.trace = []                     # (name, receiver value or None, [argument values]) in call order
 
+    def _model_mem(self, op, args, env):
+        """mem::take / mem::swap / mem::replace on places that hold modelled structs (the content moves; every holder of the struct sees it).
+        Returns (result,) or None when a place is not modelled."""
+        def place(a):
+            a = peel(a)
+            while a.get('k') in ('addr', 'ref', 'unary') and ('e' in a or 'x' in a or 'expr' in a):
+                a = peel(a.get('e') or a.get('x') or a.get('expr'))
+            return a
+        def is_struct(v):
+            return isinstance(v, tuple) and len(v) == 3 and v[0] == 'struct' and isinstance(v[2], dict)
+        try:
+            vals = [self.val(a, env) for a in args]
+        except Unanalysable:
+            return None
+        if op == 'take' and len(vals) == 1:
+            v = vals[0]
+            if is_struct(v):
+                moved = ('struct', v[1], dict(v[2]))
+                v[2].clear()
+                v[2]['@default'] = True
+                return (moved,)
+            if isinstance(v, VecObj):
+                moved = VecObj(v.items)
+                v.items.clear()
+                return (moved,)
+            return None
+        if op == 'swap' and len(vals) == 2 and is_struct(vals[0]) and is_struct(vals[1]):
+            a, b = dict(vals[0][2]), dict(vals[1][2])
+            vals[0][2].clear(); vals[0][2].update(b)
+            vals[1][2].clear(); vals[1][2].update(a)
+            return ((),)
+        if op == 'replace' and len(vals) == 2 and is_struct(vals[0]) and is_struct(vals[1]):
+            old = ('struct', vals[0][1], dict(vals[0][2]))
+            vals[0][2].clear(); vals[0][2].update(vals[1][2])
+            return (old,)
+        return None
+
     def apply(self, clo, args):
         if isinstance(clo, tuple) and len(clo) == 2 and clo[0] == 'recfn':
             # a recorded method / function passed by name (`iter.for_each(Item::make_item)`)
@@ -1572,6 +1609,10 @@ class RecInterp(FxInterp):
             path = peel(e.get('f', {})).get('path') or ''
             if path in ('core::mem::replace', 'std::mem::replace', 'core::mem::swap', 'core::mem::take'):
                 self.calls.append((last_seg(path), []))
+                if getattr(self, 'model_mem', False):
+                    r = self._model_mem(last_seg(path), e.get('args', []), env)
+                    if r is not None:
+                        return r[0]
                 return ('opaque',)
             if last_seg(path) in self.record_fns and not (peel(e.get('f', {})).get('res') or '').startswith('Ctor'):
                 args = []
